@@ -224,6 +224,509 @@ theorem replacement_eval (c c' : Q) (p : Repo → Bool) (h : selPred c = some p)
     rw [selPred_exact _ p h rfl ctx s d r hr, hp, eval_const]
   | _ => simp [selPred] at h
 
+/-! ### selection soundness -/
+
+/-- the hypothesis of the `BranchesRepos → Branch` rewrite: if the first filter child of the top-level `And` is a
+    single-entry `BranchesRepos` for the branch `HEAD`, then in every listed repository `HEAD` names the first
+    branch and only that one (the layout Sourcegraph indexes). Without it the statement is false
+    (`C18_union_full_false`). -/
+def HeadSafe (shards : List RShard) (cs : List Q) : Prop :=
+  ∀ i l p br, firstFilter cs = some (i, .branchesRepos l, p) → l = [br] → br.1 = HEAD →
+    ∀ rs ∈ shards, ∀ r ∈ rs.listed, HeadFirst r
+
+theorem evalAll_false_of_mem (cs : List Q) (c : Q) (hc : c ∈ cs) (ctx s d) (h : eval c ctx s d = false) :
+    eval (.and cs) ctx s d = false := by
+  simp only [eval, evalAll_eq]
+  rw [List.all_eq_false]
+  exact ⟨c, hc, by simp [h]⟩
+
+/-- **`doSelectRepoSet`**: for every loaded shard and every live document of it,
+    the shard is selected and the rewritten query matches ⇔ the original `And` matches -/
+theorem doSelectRepoSet_union (ctx : List Shard) (shards : List RShard) (cs : List Q)
+    (hwf : wf true true (.and cs) = true) (hH : HeadSafe shards cs)
+    (rs : RShard) (hrs : rs ∈ shards) (d : Doc) (hl : rs.shard.live d = true) :
+    (rs ∈ (doSelectRepoSet shards cs).1 ∧ eval (doSelectRepoSet shards cs).2 ctx rs.shard d = true) ↔
+      eval (.and cs) ctx rs.shard d = true := by
+  obtain ⟨r, hr, hlisted⟩ := live_listed rs d hl
+  unfold doSelectRepoSet
+  cases hff : firstFilter cs with
+  | none => simp [hrs]
+  | some x =>
+    obtain ⟨i, c, pred⟩ := x
+    obtain ⟨hci, hsel⟩ := firstFilter_spec cs i c pred hff
+    have hcm : c ∈ cs := List.mem_of_getElem? hci
+    -- a shard that is filtered out has no repository satisfying the predicate, so the child is false on `d`
+    have hout : rs ∉ (filterShards pred shards).1 → eval (.and cs) ctx rs.shard d = false := by
+      intro hn
+      have h1 : ¬ (rs.failed = true ∨ rs.listed.any pred = true) := fun h => hn ((filterShards_mem pred shards rs).2 ⟨hrs, h⟩)
+      have h2 : rs.listed.any pred = false := by
+        cases h : rs.listed.any pred with
+        | false => rfl
+        | true => exact absurd (Or.inr h) h1
+      have h3 : pred r = false := by
+        rw [List.any_eq_false] at h2
+        simpa using h2 r hlisted
+      exact evalAll_false_of_mem cs c hcm ctx _ d (selPred_sound c pred hsel ctx _ d r hr h3)
+    have hkeep : (rs ∈ (filterShards pred shards).1 ∧ eval (.and cs) ctx rs.shard d = true) ↔
+        eval (.and cs) ctx rs.shard d = true := by
+      constructor
+      · exact fun h => h.2
+      · intro h
+        refine ⟨?_, h⟩
+        apply Classical.byContradiction
+        intro hn
+        rw [hout hn] at h
+        cases h
+    simp only
+    split
+    · exact hkeep
+    · split
+      · exact hkeep
+      · rename_i hne hall
+        have hall' : (filterShards pred shards).2 = true := by simpa using hall
+        cases hrep : replacement c with
+        | none => exact hkeep
+        | some c' =>
+          simp only
+          constructor
+          · rintro ⟨hmem, hev⟩
+            obtain ⟨_, hallp⟩ := filterShards_all pred shards hall' rs hmem
+            have hp : pred r = true := List.all_eq_true.mp hallp r hlisted
+            obtain ⟨he, hw⟩ := replacement_eval c c' pred hsel hrep ctx rs.shard d r hr hp (by
+              intro l br hcl hl1 hb
+              subst hcl
+              exact hH i l pred br hff hl1 hb rs hrs r hlisted)
+            have hwf' : wf true true (.and (cs.set i c')) = true := by
+              simp only [wf, wfL_eq, List.all_eq_true] at hwf ⊢
+              intro x hx
+              rcases mem_set_cases cs i c' x hx with rfl | hx
+              · exact hw
+              · exact hwf x hx
+            have hs := (simplify_pres (nb := true) rfl (scope_nt ctx (InShard rs.shard))
+              (fun _ d hd => by obtain ⟨rfl, hl⟩ := hd; exact hl) _ hwf').2 rs.shard d ⟨rfl, hl⟩
+            rw [hs] at hev
+            simp only [eval, evalAll_eq] at hev ⊢
+            rw [all_set cs (fun c => eval c ctx rs.shard d) i c c' hci he] at hev
+            exact hev
+          · intro h
+            have hmem : rs ∈ (filterShards pred shards).1 := by
+              apply Classical.byContradiction
+              intro hn
+              rw [hout hn] at h
+              cases h
+            refine ⟨hmem, ?_⟩
+            obtain ⟨_, hallp⟩ := filterShards_all pred shards hall' rs hmem
+            have hp : pred r = true := List.all_eq_true.mp hallp r hlisted
+            obtain ⟨he, hw⟩ := replacement_eval c c' pred hsel hrep ctx rs.shard d r hr hp (by
+              intro l br hcl hl1 hb
+              subst hcl
+              exact hH i l pred br hff hl1 hb rs hrs r hlisted)
+            have hwf' : wf true true (.and (cs.set i c')) = true := by
+              simp only [wf, wfL_eq, List.all_eq_true] at hwf ⊢
+              intro x hx
+              rcases mem_set_cases cs i c' x hx with rfl | hx
+              · exact hw
+              · exact hwf x hx
+            have hs := (simplify_pres (nb := true) rfl (scope_nt ctx (InShard rs.shard))
+              (fun _ d hd => by obtain ⟨rfl, hl⟩ := hd; exact hl) _ hwf').2 rs.shard d ⟨rfl, hl⟩
+            rw [hs]
+            simp only [eval, evalAll_eq] at h ⊢
+            rw [all_set cs (fun c => eval c ctx rs.shard d) i c c' hci he]
+            exact h
+
+/-- the children `selectRepoSet` hands to `doSelectRepoSet` -/
+def topChildren : Q → List Q
+  | .and cs => cs
+  | q => [q]
+
+/-- **C18, shard pre-selection and filter rewrite** (`selectRepoSet`): for all sets of loaded shards (simple and
+    compound, tombstoned repositories, shards whose repository list could not be cached), all queries without
+    `type:repo` nodes (replaced before, see `typeRepo_*`) and without empty `Branch` patterns (C05's known class),
+    every shard `rs` and every live document `d` of it:
+    `rs` is selected and the rewritten query matches `d`  ⇔  the original query matches `d`. -/
+theorem selectRepoSet_union (ctx : List Shard) (shards : List RShard) (q : Q)
+    (hwf : wf true true q = true) (hH : HeadSafe shards (topChildren q))
+    (rs : RShard) (hrs : rs ∈ shards) (d : Doc) (hl : rs.shard.live d = true) :
+    (rs ∈ (selectRepoSet shards q).1 ∧ eval (selectRepoSet shards q).2 ctx rs.shard d = true) ↔
+      eval q ctx rs.shard d = true := by
+  have single : ∀ q, (∀ cs, q ≠ .and cs) → wf true true q = true → HeadSafe shards [q] →
+      ((rs ∈ (doSelectRepoSet shards [q]).1 ∧ eval (simplify (doSelectRepoSet shards [q]).2) ctx rs.shard d = true) ↔
+        eval q ctx rs.shard d = true) := by
+    intro q _ hq hHq
+    have hwf1 : wf true true (.and [q]) = true := by simpa [wf, wfL] using hq
+    have h1 := doSelectRepoSet_union ctx shards [q] hwf1 hHq rs hrs d hl
+    have hand : eval (.and [q]) ctx rs.shard d = eval q ctx rs.shard d := by simp [eval, evalAll]
+    rw [hand] at h1
+    -- the result of doSelectRepoSet is well formed, so the final Simplify preserves it
+    have hwf2 : wf true true (doSelectRepoSet shards [q]).2 = true := by
+      unfold doSelectRepoSet
+      cases hff : firstFilter [q] with
+      | none => exact hwf1
+      | some x =>
+        obtain ⟨i, c, pred⟩ := x
+        simp only
+        split
+        · exact hwf1
+        · split
+          · exact hwf1
+          · cases hrep : replacement c with
+            | none => exact hwf1
+            | some c' =>
+              simp only
+              obtain ⟨hci, hsel⟩ := firstFilter_spec [q] i c pred hff
+              have hw : wf true true c' = true := by
+                cases c <;> simp [selPred] at hsel <;> simp only [replacement] at hrep
+                all_goals first
+                  | (simp only [Option.some.injEq] at hrep; subst hrep; rfl)
+                  | skip
+                -- BranchesRepos
+                rename_i l
+                split at hrep
+                · split at hrep
+                  · simp at hrep
+                  · rename_i hne
+                    simp only [Option.some.injEq] at hrep; subst hrep
+                    simpa [wf] using hne
+                · simp at hrep
+              have hwf' : wf true true (.and ([q].set i c')) = true := by
+                simp only [wf, wfL_eq, List.all_eq_true]
+                intro x hx
+                rcases mem_set_cases [q] i c' x hx with rfl | hx
+                · exact hw
+                · simp at hx; subst hx; exact hq
+              exact (simplify_pres (nb := true) (ctx := ctx) rfl (scope_nt ctx (InShard rs.shard))
+                (fun _ d hd => by obtain ⟨rfl, hl⟩ := hd; exact hl) _ hwf').1
+    have hs := (simplify_pres (nb := true) rfl (scope_nt ctx (InShard rs.shard))
+      (fun _ d hd => by obtain ⟨rfl, hl⟩ := hd; exact hl) _ hwf2).2 rs.shard d ⟨rfl, hl⟩
+    rw [hs]
+    exact h1
+  cases q with
+  | and cs => exact doSelectRepoSet_union ctx shards cs hwf hH rs hrs d hl
+  | _ => exact single _ (by intro cs h; cases h) hwf hH
+
+/-! ### which repositories a shard lists, the sharded list, and `type:repo` -/
+
+def repoName (s : Shard) (d : Doc) : Option Str := (s.repoOf d).map (·.name)
+
+/-- every non-tombstoned repository of the shard has at least one document (the property's quantifier) -/
+def HasDocs (s : Shard) : Prop := ∀ r ∈ s.repos, r.tombstone = false → ∃ d ∈ s.docs, s.repoOf d = some r
+
+theorem constValue_eq (q : Q) (v : Bool) (h : constValue q = some v) : q = .const v := by
+  cases q <;> simp [constValue] at h
+  subst h; rfl
+
+/-- the name `n` is listed by the shard for `q` ⇔ a live document of a repository named `n` matches `q` -/
+theorem shardList_names (ctx : List Shard) (s : Shard) (hv : s.featureVersion ≥ 12) (q : Q)
+    (hq : wf true true q = true) (hd : HasDocs s) (n : Str) :
+    n ∈ (shardList ctx s q).map (·.name) ↔
+      ∃ d ∈ s.docs, s.live d = true ∧ repoName s d = some n ∧ eval q ctx s d = true := by
+  obtain ⟨hw, hp⟩ := shardSimplify_pres ctx (nb := true) rfl s hv q hq
+  have hpe : ∀ d, s.live d = true → eval (expand (shardSimplify s q)) ctx s d = eval q ctx s d := by
+    intro d hl
+    rw [(expand_pres (scope_nt ctx (InShard s)) _ hw).2 s d ⟨rfl, hl⟩]
+    exact hp s d ⟨rfl, hl⟩
+  unfold shardList
+  cases hc : constValue (shardSimplify s q) with
+  | some v =>
+    have hcq := constValue_eq _ v hc
+    cases v with
+    | false =>
+      simp only [List.map_nil, List.not_mem_nil, false_iff]
+      rintro ⟨d, _, hl, _, he⟩
+      have := hp s d ⟨rfl, hl⟩
+      rw [hcq, eval_const] at this
+      rw [← this] at he
+      cases he
+    | true =>
+      simp only [List.mem_map, List.mem_filter]
+      constructor
+      · rintro ⟨r, ⟨hr, ht⟩, rfl⟩
+        have ht' : r.tombstone = false := by simpa using ht
+        obtain ⟨d, hdm, hrd⟩ := hd r hr ht'
+        have hl : s.live d = true := by simp [Shard.live, hrd, ht']
+        refine ⟨d, hdm, hl, by simp [repoName, hrd], ?_⟩
+        have := hp s d ⟨rfl, hl⟩
+        rw [hcq, eval_const] at this
+        exact this.symm
+      · rintro ⟨d, _, hl, hn, _⟩
+        obtain ⟨r, hr, ht⟩ := live_repoOf hl
+        refine ⟨r, ⟨repoOf_mem hr, by simp [ht]⟩, ?_⟩
+        simpa [repoName, hr] using hn
+  | none =>
+    simp only [List.mem_map, List.mem_filter, Bool.and_eq_true, List.contains_iff_mem, List.mem_filterMap]
+    constructor
+    · rintro ⟨r, ⟨_, _, d, ⟨hdm, hl, he⟩, hn⟩, rfl⟩
+      exact ⟨d, hdm, hl, by simpa [repoName] using hn, by rw [← hpe d hl]; exact he⟩
+    · rintro ⟨d, hdm, hl, hn, he⟩
+      obtain ⟨r, hr, ht⟩ := live_repoOf hl
+      have hrn : r.name = n := by simpa [repoName, hr] using hn
+      refine ⟨r, ⟨repoOf_mem hr, by simp [ht], d, ⟨hdm, hl, by rw [hpe d hl]; exact he⟩, ?_⟩, hrn⟩
+      simp [hr]
+
+theorem replacement_wf (c c' : Q) (p : Repo → Bool) (hsel : selPred c = some p) (hrep : replacement c = some c') :
+    wf true true c' = true := by
+  cases c with
+  | branchesRepos l =>
+    simp only [replacement] at hrep
+    split at hrep
+    · split at hrep
+      · simp at hrep
+      · rename_i hne
+        simp only [Option.some.injEq] at hrep; subst hrep
+        simpa [wf] using hne
+    · simp at hrep
+  | repoSet set => simp only [replacement, Option.some.injEq] at hrep; subst hrep; rfl
+  | repoIDs ids => simp only [replacement, Option.some.injEq] at hrep; subst hrep; rfl
+  | repo p' => simp only [replacement, Option.some.injEq] at hrep; subst hrep; rfl
+  | metaQ f p' => simp only [replacement, Option.some.injEq] at hrep; subst hrep; rfl
+  | _ => simp [selPred] at hsel
+
+theorem doSelect_wf (shards : List RShard) (cs : List Q) (hwf : wf true true (.and cs) = true) :
+    wf true true (doSelectRepoSet shards cs).2 = true := by
+  unfold doSelectRepoSet
+  cases hff : firstFilter cs with
+  | none => exact hwf
+  | some x =>
+    obtain ⟨i, c, pred⟩ := x
+    simp only
+    split
+    · exact hwf
+    · split
+      · exact hwf
+      · cases hrep : replacement c with
+        | none => exact hwf
+        | some c' =>
+          simp only
+          obtain ⟨hci, hsel⟩ := firstFilter_spec cs i c pred hff
+          have hw := replacement_wf c c' pred hsel hrep
+          have hwf' : wf true true (.and (cs.set i c')) = true := by
+            simp only [wf, wfL_eq, List.all_eq_true] at hwf ⊢
+            intro x hx
+            rcases mem_set_cases cs i c' x hx with rfl | hx
+            · exact hw
+            · exact hwf x hx
+          exact (simplify_pres (nb := true) (ctx := []) rfl (scope_nt [] (fun _ _ => False))
+            (fun _ _ hd => hd.elim) _ hwf').1
+
+theorem doSelect_subset (shards : List RShard) (cs : List Q) (rs : RShard)
+    (h : rs ∈ (doSelectRepoSet shards cs).1) : rs ∈ shards := by
+  unfold doSelectRepoSet at h
+  cases hff : firstFilter cs with
+  | none => simpa [hff] using h
+  | some x =>
+    obtain ⟨i, c, pred⟩ := x
+    simp only [hff] at h
+    have key : ∀ q : Q, rs ∈ ((filterShards pred shards).1, q).1 → rs ∈ shards :=
+      fun _ hm => ((filterShards_mem pred shards rs).1 hm).1
+    split at h
+    · exact key _ h
+    · split at h
+      · exact key _ h
+      · cases hrep : replacement c with
+        | none => simp only [hrep] at h; exact key (.const true) h
+        | some c' => simp only [hrep] at h; exact key (.const true) h
+
+theorem selectRepoSet_wf (shards : List RShard) (q : Q) (hwf : wf true true q = true) :
+    wf true true (selectRepoSet shards q).2 = true := by
+  have single : ∀ q, wf true true q = true → wf true true (simplify (doSelectRepoSet shards [q]).2) = true := by
+    intro q hq
+    have h1 : wf true true (.and [q]) = true := by simpa [wf, wfL] using hq
+    exact (simplify_pres (nb := true) (ctx := []) rfl (scope_nt [] (fun _ _ => False))
+      (fun _ _ hd => hd.elim) _ (doSelect_wf shards [q] h1)).1
+  cases q with
+  | and cs => exact doSelect_wf shards cs hwf
+  | _ => exact single _ hwf
+
+theorem selectRepoSet_subset (shards : List RShard) (q : Q) (rs : RShard)
+    (h : rs ∈ (selectRepoSet shards q).1) : rs ∈ shards := by
+  cases q with
+  | and cs => exact doSelect_subset shards cs rs h
+  | _ => exact doSelect_subset shards [_] rs h
+
+/-- in every listed repository `HEAD` names the first branch and only that one (the layout Sourcegraph indexes) -/
+def GlobalHead (shards : List RShard) : Prop := ∀ rs ∈ shards, ∀ r ∈ rs.listed, HeadFirst r
+
+/-- current shard format, and every live repository has a document -/
+def GoodShards (shards : List RShard) : Prop :=
+  ∀ rs ∈ shards, rs.shard.featureVersion ≥ 12 ∧ HasDocs rs.shard
+
+theorem headSafe_of_global (shards : List RShard) (h : GlobalHead shards) (cs : List Q) : HeadSafe shards cs :=
+  fun _ _ _ _ _ _ _ rs hrs r hr => h rs hrs r hr
+
+/-- the sharded `List` names exactly the repositories with a live matching document somewhere -/
+theorem shardedListNames_spec (shards : List RShard) (q : Q) (hq : wf true true q = true)
+    (hg : GoodShards shards) (hh : GlobalHead shards) (n : Str) :
+    n ∈ shardedListNames shards q ↔
+      ∃ rs ∈ shards, ∃ d ∈ rs.shard.docs, rs.shard.live d = true ∧ repoName rs.shard d = some n ∧
+        eval q (shards.map (·.shard)) rs.shard d = true := by
+  let ctx := shards.map (·.shard)
+  have hs1 : wf true true (simplify q) = true :=
+    (simplify_pres (nb := true) (ctx := []) rfl (scope_nt [] (fun _ _ => False)) (fun _ _ hd => hd.elim) q hq).1
+  have hsp : ∀ (s : Shard) d, s.live d = true → eval (simplify q) ctx s d = eval q ctx s d := by
+    intro s d hl
+    exact (simplify_pres (nb := true) rfl (scope_nt ctx (InShard s))
+      (fun _ d hd => by obtain ⟨rfl, hl⟩ := hd; exact hl) q hq).2 s d ⟨rfl, hl⟩
+  have hw2 := selectRepoSet_wf shards (simplify q) hs1
+  have hU := fun rs hrs d hl => selectRepoSet_union ctx shards (simplify q) hs1
+    (headSafe_of_global shards hh _) rs hrs d hl
+  unfold shardedListNames
+  simp only [List.mem_eraseDups, List.mem_flatMap]
+  constructor
+  · rintro ⟨rs, hsel, hn⟩
+    have hrs := selectRepoSet_subset shards _ rs hsel
+    obtain ⟨hv, hd⟩ := hg rs hrs
+    obtain ⟨d, hdm, hl, hnm, he⟩ := (shardList_names ctx rs.shard hv _ hw2 hd n).1 hn
+    refine ⟨rs, hrs, d, hdm, hl, hnm, ?_⟩
+    rw [← hsp rs.shard d hl]
+    exact (hU rs hrs d hl).1 ⟨hsel, he⟩
+  · rintro ⟨rs, hrs, d, hdm, hl, hnm, he⟩
+    obtain ⟨hv, hd⟩ := hg rs hrs
+    rw [← hsp rs.shard d hl] at he
+    obtain ⟨hsel, he2⟩ := (hU rs hrs d hl).2 he
+    exact ⟨rs, hsel, (shardList_names ctx rs.shard hv _ hw2 hd n).2 ⟨d, hdm, hl, hnm, he2⟩⟩
+
+/-! ### `type:repo` pre-evaluation -/
+
+/-! no parser-internal case-scope wrapper (they are stripped by `query.Parse` and never reach a searcher) -/
+mutual
+def noScope : Q → Bool
+  | .and cs => noScopeL cs
+  | .or cs => noScopeL cs
+  | .not c => noScope c
+  | .type _ c => noScope c
+  | .boost _ c => noScope c
+  | .caseScope _ => false
+  | _ => true
+def noScopeL : List Q → Bool
+  | [] => true
+  | c :: cs => noScope c && noScopeL cs
+end
+
+theorem noScopeL_eq (cs : List Q) : noScopeL cs = cs.all noScope := by
+  induction cs with
+  | nil => simp [noScopeL]
+  | cons c cs ih => simp [noScopeL, ih]
+
+theorem typeRepoStep_leaf (shards : List RShard) (q : Q) (h : isLeaf q = true) : typeRepoStep shards q = q := by
+  cases q <;> first | rfl | simp [isLeaf] at h
+
+theorem typeRepoStep_type_ne (shards : List RShard) (t : Nat) (c : Q) (h : t ≠ 2) :
+    typeRepoStep shards (.type t c) = .type t c := by
+  unfold typeRepoStep
+  split
+  · rename_i heq
+    simp only [Q.type.injEq] at heq
+    exact absurd heq.1 h
+  · rfl
+
+theorem lookup_map_true (n : Str) (l : List Str) : (lookup n (l.map fun x => (x, true)) == some true) = l.contains n := by
+  induction l with
+  | nil => simp [lookup]
+  | cons a t ih =>
+    simp only [List.map_cons, lookup, List.contains_cons]
+    by_cases h : a = n
+    · subst h; simp
+    · have h1 : (a == n) = false := by simpa using h
+      have h2 : (n == a) = false := by simpa using (fun e : n = a => h e.symm)
+      simp [h1, h2, ih]
+
+theorem wf_tt_of_leaf (q : Q) (hl : isLeaf q = true) (h : wf true false q = true) : wf true true q = true := by
+  cases q <;> first | exact h | simp [isLeaf] at hl
+
+/-- **`typeRepoSearcher.eval`** replaces every `type:repo` node by a set that evaluates like it, on every live
+    document of the corpus, and leaves a tree without `type:repo` -/
+theorem typeRepoEval_spec (shards : List RShard) (hg : GoodShards shards) (hh : GlobalHead shards) (q : Q) :
+    wf true false q = true → noScope q = true →
+    wf true true (map (typeRepoStep shards) q) = true ∧
+    ∀ s d, InCorpus (shards.map (·.shard)) s d →
+      eval (map (typeRepoStep shards) q) (shards.map (·.shard)) s d = eval q (shards.map (·.shard)) s d := by
+  induction q using Q.ind with
+  | hconst v => intro _ _; exact ⟨rfl, fun _ _ _ => rfl⟩
+  | hand cs ih =>
+    intro h hn
+    have hw : ∀ c ∈ cs, wf true false c = true := by simpa [wf, wfL_eq] using h
+    have hs : ∀ c ∈ cs, noScope c = true := by simpa [noScope, noScopeL_eq] using hn
+    have e : map (typeRepoStep shards) (.and cs) = .and (mapL (typeRepoStep shards) cs) := by
+      simp [map, typeRepoStep]
+    rw [e]
+    refine ⟨?_, fun s d hd => ?_⟩
+    · simp only [wf, wfL_eq, mapL_eq, List.all_map, List.all_eq_true]
+      exact fun c hc => (ih c hc (hw c hc) (hs c hc)).1
+    · simp only [eval, evalAll_eq, mapL_eq, List.all_map]
+      exact all_congr_mem (fun c hc => (ih c hc (hw c hc) (hs c hc)).2 s d hd)
+  | hor cs ih =>
+    intro h hn
+    have hw : ∀ c ∈ cs, wf true false c = true := by simpa [wf, wfL_eq] using h
+    have hs : ∀ c ∈ cs, noScope c = true := by simpa [noScope, noScopeL_eq] using hn
+    have e : map (typeRepoStep shards) (.or cs) = .or (mapL (typeRepoStep shards) cs) := by
+      simp [map, typeRepoStep]
+    rw [e]
+    refine ⟨?_, fun s d hd => ?_⟩
+    · simp only [wf, wfL_eq, mapL_eq, List.all_map, List.all_eq_true]
+      exact fun c hc => (ih c hc (hw c hc) (hs c hc)).1
+    · simp only [eval, evalAny_eq, mapL_eq, List.any_map]
+      exact any_congr_mem (fun c hc => (ih c hc (hw c hc) (hs c hc)).2 s d hd)
+  | hnot c ih =>
+    intro h hn
+    obtain ⟨i1, i2⟩ := ih (by simpa [wf] using h) (by simpa [noScope] using hn)
+    have e : map (typeRepoStep shards) (.not c) = .not (map (typeRepoStep shards) c) := by
+      simp [map, typeRepoStep]
+    rw [e]
+    exact ⟨by simpa [wf] using i1, fun s d hd => by simp [eval, i2 s d hd]⟩
+  | hboost w c ih =>
+    intro h hn
+    obtain ⟨i1, i2⟩ := ih (by simpa [wf] using h) (by simpa [noScope] using hn)
+    have e : map (typeRepoStep shards) (.boost w c) = .boost w (map (typeRepoStep shards) c) := by
+      simp [map, typeRepoStep]
+    rw [e]
+    exact ⟨by simpa [wf] using i1, fun s d hd => by simp [eval, i2 s d hd]⟩
+  | hcs c _ => intro _ hn; simp [noScope] at hn
+  | hleaf q hl =>
+    intro h _
+    rw [map_leaf _ q hl, typeRepoStep_leaf shards q hl]
+    exact ⟨wf_tt_of_leaf q hl h, fun _ _ _ => rfl⟩
+  | htype t c ih =>
+    intro h hn
+    obtain ⟨i1, i2⟩ := ih (by simpa [wf] using h) (by simpa [noScope] using hn)
+    by_cases ht : t = 2
+    · subst ht
+      have e : map (typeRepoStep shards) (.type 2 c) =
+          .repoSet ((shardedListNames shards (map (typeRepoStep shards) c)).map fun n => (n, true)) := by
+        simp [map, typeRepoStep]
+      rw [e]
+      refine ⟨rfl, fun s d hd => ?_⟩
+      obtain ⟨hsm, hdm, hl⟩ := hd
+      obtain ⟨r, hr, _⟩ := live_repoOf hl
+      simp only [eval, hr, evalAtom, evalRepoSet, lookup_map_true, beq_self_eq_true, if_true]
+      apply Bool.eq_iff_iff.mpr
+      rw [List.contains_iff_mem, shardedListNames_spec shards _ i1 hg hh r.name, List.any_eq_true]
+      constructor
+      · rintro ⟨rs, hrs, d', hd', hl', hn', he'⟩
+        refine ⟨rs.shard, List.mem_map.mpr ⟨rs, hrs, rfl⟩, ?_⟩
+        rw [List.any_eq_true]
+        refine ⟨d', hd', ?_⟩
+        have hin : InCorpus (shards.map (·.shard)) rs.shard d' := ⟨List.mem_map.mpr ⟨rs, hrs, rfl⟩, hd', hl'⟩
+        rw [i2 rs.shard d' hin] at he'
+        have hn2 : (rs.shard.repoOf d').map (·.name) = some r.name := hn'
+        simp [hl', he', hn2]
+      · rintro ⟨s', hs', hany⟩
+        rw [List.any_eq_true] at hany
+        obtain ⟨d', hd', hb⟩ := hany
+        obtain ⟨rs, hrs, rfl⟩ := List.mem_map.mp hs'
+        simp only [Bool.and_eq_true, beq_iff_eq] at hb
+        obtain ⟨⟨hl', hn'⟩, he'⟩ := hb
+        have hin : InCorpus (shards.map (·.shard)) rs.shard d' := ⟨hs', hd', hl'⟩
+        refine ⟨rs, hrs, d', hd', hl', hn', ?_⟩
+        rw [i2 rs.shard d' hin]; exact he'
+    · have e : map (typeRepoStep shards) (.type t c) = .type t (map (typeRepoStep shards) c) := by
+        simp only [map]; exact typeRepoStep_type_ne shards t _ ht
+      rw [e]
+      refine ⟨?_, fun s d hd => ?_⟩
+      · simp only [wf, Bool.and_eq_true]; exact ⟨by simpa using ht, i1⟩
+      · have h2 : (t == 2) = false := by simpa using ht
+        simp only [eval, h2, Bool.false_eq_true, if_false]
+        exact i2 s d hd
+
 /-! ### list aggregation -/
 
 theorem addStats_nil_left (t : Stats) : addStats [] t = t := by
